@@ -189,7 +189,14 @@ def conditions(prop, tier):
         for ak in (0, 1, 2):
             if ak and be:
                 continue
-            out.append(dict(name='%s.exec.real-compile.%s.a%d' % (prop, ('json', 'pysnmp')[be], ak), fn='real_compile', fixed=dict(backend=be, akind=ak),
+          # (the healthy-A shards are the large ones: split by the state of B)
+            for bk in ((0, 1, 2, 3) if ak == 0 else (None,)):
+              if q and be and bk in (1, 2):
+                  continue
+              fx = dict(backend=be, akind=ak)
+              if bk is not None:
+                  fx['bkind'] = bk
+              out.append(dict(name='%s.exec.real-compile.%s.a%d%s' % (prop, ('json', 'pysnmp')[be], ak, '' if bk is None else '.b%d' % bk), fn='real_compile', fixed=fx,
                             timeout=t, extra_pre=['not b_a or (a_b and bkind == 0)'],
                             bounds=X + 'module A %s; B healthy / syntax error / duplicate symbol / absent; imports A->B, A->C, B->C, B->A (cycle); C present '
                                    'or absent; B requested too; ignoreErrors, noDeps: statuses, writer calls, summaries and written texts vs the ground truth of the '
